@@ -3,6 +3,8 @@ import EchVerif.ECH.Config
 import EchVerif.ECH.Conn
 import EchVerif.Spec.Hello
 import EchVerif.DNS.Text
+import EchVerif.Resolve.Targets
+import EchVerif.Resolve.Resolve
 /-
   echdrv: line protocol driver.  One op per input line, one answer per output line.
   Imports no Mathlib (so that it links).  Each handler lives next to the model it drives.
@@ -27,6 +29,7 @@ def showSpec (c : ConfigSpec) : String :=
 
 /-- per-case state of the Conn family ops -/
 structure World where
+  cache : Resolve.CState := {}
   H : Hpke := {}
   keys : List Key := []
   st : St := {}
@@ -168,6 +171,136 @@ def dnsOp (toks : List String) : Option String :=
     some (toString (DNS.responseCode rc ttl))
   | _ => none
 
+namespace RT
+open Resolve DNS.Text
+def optB (s : String) : Option (Option Bytes) := if s = "nil" then some none else (unhex s).map some
+def showOptB : Option Bytes → String
+  | none => "nil"
+  | some b => hex b
+def readHttps (s : String) : Option HttpsRec :=
+  match s.splitOn ":" with
+  | [p, t, alpn, nd, port, v4, v6, ech] => do
+    some { priority := ← p.toNat?, target := ← unhex t, alpn := ← unPlus alpn, noDefaultALPN := nd = "1", port := ← port.toNat?,
+           v4 := ← unPlus v4, v6 := ← unPlus v6, ech := ← optB ech }
+  | _ => none
+def readHttpsList (s : String) : Option (List HttpsRec) := if s = "_" then some [] else (s.splitOn ";").mapM readHttps
+def readAdditional (s : String) : Option (List (Bytes × List IP)) :=
+  if s = "_" then some [] else (s.splitOn ";").mapM fun x => match x.splitOn "=" with
+    | [n, ips] => do some (← unhex n, ← unPlus ips)
+    | _ => none
+def readNet (s : String) : Option Network :=
+  match s with
+  | "tcp" => some .tcp | "tcp4" => some .tcp4 | "tcp6" => some .tcp6
+  | "udp" => some .udp | "udp4" => some .udp4 | "udp6" => some .udp6 | _ => none
+def showTargets (l : List Target) : String :=
+  semi (l.map fun t => s!"{hex t.ip}@{t.port}/{showOptB t.ech}/{hexL t.alpn}")
+def readResult (port addr https add : String) : Option Result := do
+  some { port := ← port.toNat?, address := ← unPlus addr, https := ← readHttpsList https, additional := ← readAdditional add }
+end RT
+
+namespace RT
+open Resolve DNS.Text
+def showHttps (h : HttpsRec) : String :=
+  s!"{h.priority}:{hex h.target}:{hexL h.alpn}:{if h.noDefaultALPN then 1 else 0}:{h.port}:{hexL h.v4}:{hexL h.v6}:{showOptB h.ech}"
+def insSorted (x : String) : List String → List String
+  | [] => [x]
+  | y :: ys => if x < y then x :: y :: ys else y :: insSorted x ys
+def sortStrs (l : List String) : List String := l.foldr insSorted []
+/-- canonical: records ordered by (priority, text) since sort.Slice is not stable; map keys sorted -/
+def showResult (r : Result) : String :=
+  s!"{r.port} {hexL r.address} {semi (canonHttps r.https)} {semi (sortStrs (r.additional.map fun (k, v) => s!"{hex k}={hexL v}"))}"
+where
+  canonHttps (l : List HttpsRec) : List String :=
+    let keyed := l.map fun h => (h.priority, showHttps h)
+    let rec ins (x : Nat × String) : List (Nat × String) → List (Nat × String)
+      | [] => [x]
+      | y :: ys => if x.1 < y.1 ∨ (x.1 = y.1 ∧ x.2 < y.2) then x :: y :: ys else y :: ins x ys
+    (keyed.foldr ins []).map (·.2)
+
+def readAData (s : String) : Option AData :=
+  if s = "other" then some .other else
+  match s.splitOn ":" with
+  | ["ip", b] => (unhex b).map .ip
+  | ["name", b] => (unhex b).map .name
+  | "https" :: rest => (readHttps (":".intercalate rest)).map .https
+  | _ => none
+
+def readAns (s : String) : Option Ans :=
+  match s.splitOn "," with
+  | [ttl, owner, typ, d] => do some ⟨← unhex owner, ← typ.toNat?, ← ttl.toNat?, ← readAData d⟩
+  | _ => none
+
+def readEntry (s : String) : Option ((Bytes × Nat) × Resp) :=
+  match s.splitOn "=" with
+  | key :: restl =>
+    let rest := "=".intercalate restl
+    match key.splitOn "/" with
+    | [n, t] => do
+      let n ← unhex n; let t ← t.toNat?
+      match rest.splitOn "~" with
+      | ["fail"] => some ((n, t), .fail)
+      | rc :: answers => do
+        let rc ← rc.toNat?
+        let as ← answers.mapM readAns
+        some ((n, t), .msg rc as)
+      | _ => none
+    | _ => none
+  | _ => none
+
+def readUniverse (s : String) : Option Universe :=
+  if s = "_" then some (fun _ _ => .msg 3 []) else do
+  let es ← (s.splitOn ";").mapM readEntry
+  some fun n t => match es.find? (fun e => e.1 = (n, t)) with
+    | some e => e.2
+    | none => .msg 3 []
+
+def readParsed (scheme name port lh ip : String) : Option Parsed := do
+  let ipv ← (if ip = "-" then some none else (unhex ip).map some)
+  some { scheme := ← unhex scheme, name := ← unhex name, port := ← port.toNat?, isLocalhost := lh = "1", ip := ipv }
+
+def errS : Option RErr → String
+  | none => "-"
+  | some .invalidName => "invalidname" | some .format => "format" | some .servfail => "servfail"
+  | some .nxdomain => "nxdomain" | some .notimp => "notimp" | some .refused => "refused"
+  | some .rcode => "rcode" | some .transport => "transport"
+end RT
+
+structure CacheWorld where
+  c : Resolve.CState := {}
+
+def resolveOp2 (cw : CacheWorld) (toks : List String) : Option (CacheWorld × String) :=
+  match toks with
+  | ["resolve", scheme, name, port, lh, ip, uni] => do
+    let p ← RT.readParsed scheme name port lh ip
+    let U ← RT.readUniverse uni
+    let r := Resolve.resolve U p
+    let log := if r.s.isEmpty then "_" else ",".intercalate (r.s.map fun (n, t) => s!"{hex n}/{t}")
+    some (cw, s!"res={RT.showResult r.result} err={RT.errS r.err} log={log}")
+  | ["cache-reset"] => some ({}, "ok")
+  | ["cache-resolve", scheme, name, port, lh, ip, uni, now] => do
+    let p ← RT.readParsed scheme name port lh ip
+    let U ← RT.readUniverse uni
+    let now ← now.toNat?
+    let c0 := { cw.c with now := now, upstream := [] }
+    let r := Resolve.resolveWith (Resolve.lookupCached U) c0 p
+    let up := if r.s.upstream.isEmpty then "_" else ",".intercalate (r.s.upstream.map fun (n, t, tm) => s!"{hex n}/{t}@{tm}")
+    some ({ c := r.s }, s!"res={RT.showResult r.result} err={RT.errS r.err} up={up}")
+  | _ => none
+
+def resolveOp (toks : List String) : Option String :=
+  match toks with
+  | ["targets", net, port, addr, https, add, k] => do
+    let r ← RT.readResult port addr https add
+    let net ← RT.readNet net
+    let k ← k.toNat?
+    some (RT.showTargets (Resolve.targetsUpTo r net k))
+  | ["targets-spec", net, port, addr, https, add, k, out] => do
+    let r ← RT.readResult port addr https add
+    let net ← RT.readNet net
+    let k ← k.toNat?
+    if RT.showTargets ((Resolve.TargetsSpec r net).take k) = out then some "S ok" else some "S fail targets-differ-from-TargetsSpec"
+  | _ => none
+
 def handle (toks : List String) : String :=
   match toks with
   -- C11 ------------------------------------------------------------------------------
@@ -226,7 +359,13 @@ partial def loop (h : IO.FS.Stream) (out : IO.FS.Stream) (w : World) : IO Unit :
     | none =>
       match dnsOp toks with
       | some ans => out.putStrLn ans; loop h out w
-      | none => out.putStrLn (handle toks); loop h out w
+      | none =>
+        match resolveOp toks with
+        | some ans => out.putStrLn ans; loop h out w
+        | none =>
+          match resolveOp2 { c := w.cache } toks with
+          | some (cw, ans) => out.putStrLn ans; loop h out { w with cache := cw.c }
+          | none => out.putStrLn (handle toks); loop h out w
 
 end Drv
 
